@@ -206,9 +206,10 @@ def part_a(tier, seed, ev, rep):
             st["cut_at_allowed_alternative"] += 1
             cuts += 1
             continue
-        if not plain and (threads > 1 or v[0].get("what") == "hang"):
-            # several kernel threads: "did not return by itself" is decided with a patience interval; on a loaded
-            # machine confirm with a long one before reporting
+        if not plain and ((threads > 1 and v[0].get("what") == "blocked" and v[0].get("mode") == "blocking") or v[0].get("what") == "hang"):
+            # several kernel threads: "a ready call did not return by itself" is decided with a patience interval
+            # (another kernel thread may be the one that delivers the event); on a loaded machine confirm with a
+            # long interval before reporting.  Same for hangs (time limit of the executor).
             rc2, out2, err2 = S.execute(bins[variant], text, False, patience_ms=1500)
             v2 = S.compare(seqs[i][1], rc2, out2, False)
             if v2 is None or v2[0] == "cut":
